@@ -181,11 +181,12 @@ class Module:
 # State
 
 class Region:
-    __slots__ = ("size", "data", "name", "freed", "heap")
+    __slots__ = ("size", "data", "name", "freed", "heap", "foreign")
     def __init__(self, size, name, heap=False):
         self.size, self.name, self.heap = size, name, heap
         self.data = [None] * size
         self.freed = False
+        self.foreign = False   # owned by the caller's library (libpam): the module may read it only
 
 class Frame:
     def __init__(self, fn):
@@ -218,6 +219,7 @@ class State:
             nr = Region(r.size, r.name, r.heap)
             nr.data = list(r.data)
             nr.freed = r.freed
+            nr.foreign = r.foreign
             s.regions[k] = nr
         s.next_region = self.next_region
         for f in self.frames:
@@ -342,6 +344,8 @@ class Engine:
 
     def store_bytes(self, st, p, bs):
         r = self.check_access(st, p, len(bs), "store")
+        if r.foreign:
+            raise Violation("memory", "store into memory the module does not own (%s)" % r.name)
         for i, b in enumerate(bs):
             r.data[p.off + i] = b
 
